@@ -258,6 +258,11 @@ var sqlVocab = map[string]bool{"AND": true, "OR": true, "NOT": true, "=": true, 
 
 var tokRe = regexp.MustCompile(`'\*'|[A-Za-z_]+|<=|>=|--|/\*|\*/|::|\S`)
 
+func isStringSlice(t types.Type) bool {
+	sl, ok := t.Underlying().(*types.Slice)
+	return ok && isStringType(sl.Elem())
+}
+
 func vocabCheck(lit string) []string {
 	var bad []string
 	for _, t := range tokRe.FindAllString(lit, -1) {
@@ -488,6 +493,73 @@ func ruleSQLTAINT(c *Ctx, r *Report) {
 		}
 	}
 	r.ok(rule, "format|constants", "-", fmt.Sprintf("%d format strings in the driver package are constants", nFmt))
+	// accumulated text: whatever the serialisers append to a []string (joined later) or write into a
+	// strings.Builder is constant text or the rendering of a sub-term — never a raw payload
+	{
+		allowedCall := func(k string) bool {
+			for _, f := range c.serKeep() {
+				if f != nil && strings.HasPrefix(k, fnName(f)+"(") {
+					return true
+				}
+			}
+			return false
+		}
+		nAcc := 0
+		for _, f := range []*ssa.Function{dr.Ser, dr.SerParam} {
+			for g := range c.reachFrom([]*ssa.Function{f}) {
+				if fnPkgPath(g) != pkgDriver || g == dr.Render || g == dr.RenderParam {
+					continue
+				}
+				isSerLike := g == dr.Ser || g == dr.SerParam
+				for _, k := range c.serKeep() {
+					if k == g {
+						isSerLike = true
+					}
+				}
+				if !isSerLike && !c.reachedOnlyFrom(g, f, 0) {
+					continue
+				}
+				for _, b := range g.Blocks {
+					for _, in := range b.Instrs {
+						call, ok := in.(*ssa.Call)
+						if !ok {
+							continue
+						}
+						var written ssa.Value
+						name := calleeFullName(call)
+						switch {
+						case name == "(*strings.Builder).WriteString" && len(call.Call.Args) == 2:
+							written = call.Call.Args[1]
+						case name == "builtin.append" && len(call.Call.Args) == 2 && isStringSlice(call.Call.Args[0].Type()):
+							if lit, ok := c.sliceLiteral(call.Call.Args[1], nil); ok && len(lit) == 1 {
+								written = lit[0]
+							}
+						}
+						if written == nil {
+							continue
+						}
+						nAcc++
+						okAll := true
+						for _, sg := range c.skeleton(written, nil) {
+							if sg.isLit() {
+								continue
+							}
+							if !allowedCall(sg.Hole) {
+								okAll = false
+							}
+						}
+						key := "accumulate|" + fnName(g) + "|" + skelString(c.skeleton(written, nil))
+						if okAll {
+							r.ok(rule, key, c.instrPos(in), "constant text or the rendering of a sub-term")
+						} else {
+							r.bad(rule, key, c.instrPos(in), fmt.Sprintf("%s adds %s to the SQL text it is assembling: that is not the rendering of a sub-term (which quotes and checks values) but raw text taken from the tree — a value containing a quote breaks out of its literal", fnName(g), skelString(c.skeleton(written, nil))))
+						}
+					}
+				}
+			}
+		}
+		r.floor(rule, "accumulated fragments in the serialisers", nAcc, 2)
+	}
 	for _, mode := range []struct {
 		name string
 		fn   *ssa.Function
